@@ -7,6 +7,7 @@ _PARTS = [
     ("c09_pool_state_c", "4"),
     ("c09_pool_world", "5"),
     ("c09_pool_u32", "6"),
+    ("c09_pool_edge", "7"),
 ]
 
 PROP = {
@@ -102,9 +103,11 @@ PROP = {
         "Momo.PoolU32.C09_u32_history",
     ],
     "harnesses": [
-        {"name": name, "src": "c09_pool.cpp", "sanitize": "asan",
-         # the state parts are template-heavy and run for a second: -O0 halves their compile time
-         "flags": ["-DC09_PART=" + part] + ([] if part == "1" else ["-O0"])}
+        dict({"name": name, "src": "c09_pool.cpp", "sanitize": "asan",
+              # the state parts are template-heavy and run for a second: -O0 halves their compile time
+              "flags": ["-DC09_PART=" + part] + ([] if part == "1" else ["-O0"])},
+             # part 7 runs for seconds; a MergeFrom(self) that is not a no-op may loop for ever: give up early
+             **({"timeout_quick": 180, "timeout_thorough": 600} if part == "7" else {}))
         for name, part in _PARTS
     ],
     "rule": ("DeallocateIf is also run with a filter that throws at its (k+1)-th question (model line `dift`: the state must be that of a complete call whose filter answers no from then on; reported count = live blocks afterwards). "
@@ -128,7 +131,22 @@ PROP = {
              "MemPoolUInt32<N> for N in {1,2,3,4,16,64}, block sizes 1..48, buffer limits from 1 buffer to 4e9 blocks: Allocate with chosen addresses "
              "for BOTH requests (array storage, buffer) and bad_alloc injected at either, length_error at the limit, Deallocate of random live "
              "indices, DeallocateAll, dumps of the free chain, destruction; compared: index, every manager call, head, count, buffer addresses, "
-             "array capacity, real pointer and its (buffer, offset); u32.histories_nontrivial = histories with >= 3 buffers and >= 1 complete clear."),
+             "array capacity, real pointer and its (buffer, offset); u32.histories_nontrivial = histories with >= 3 buffers and >= 1 complete clear. "
+             "edge (part 7, pools of ONE C++ type with run-time block size / alignment / block count / cache size, CheckMode::exception, tagged managers; "
+             "model engine poolworld with the driver ops dif / mergex / params / sizemax, poolu32 with ctor): DeallocateIf with a call-counting filter on a "
+             "pool without a live block (fresh; every block freed again, with cached free blocks that must be flushed and without; after a DeallocateIf that "
+             "freed everything; after DeallocateAll) and the pool used afterwards; MergeFrom(self) on empty / one-buffer / several-buffer pools with cached "
+             "blocks and on single-block pools (count, parameters, manager, buffer list, cache, ledger and block contents unchanged, then every block freed "
+             "on its own); MergeFrom between pools differing in exactly one of block size, alignment, block count, memory manager (IsEqual false): "
+             "std::invalid_argument in both directions, both pools unchanged, then still usable, mergeable with an equal pool, destroyed with everything "
+             "returned; the constructor with illegal parameters: a sweep of blockCount in {0,1,2,3,5,64,126,127,128,129,255,256,65536,SIZE_MAX} x alignment in "
+             "{0,1,2,3,4,7,8,16,24,100,512,1000,1023,1024,1025,2048,65536,2^63,SIZE_MAX} x block sizes around k*A (k<=5), SIZE_MAX/blockCount (+-1, rounded to "
+             "multiples of A), 2^63, SIZE_MAX plus seeded random sets near the borders, each compared with a legality predicate written in the harness "
+             "(128-bit product for the overflow) and with the model's Params.Legal: legal sets construct (a quarter of the small ones are then used), illegal "
+             "ones throw invalid_argument / length_error, never call the manager and destroy the manager object they were given; MemPool() and "
+             "MemPool(MemManager) with a default-constructible manager; const GetMemManager of both classes; MemPoolUInt32's constructor for blockCount in "
+             "{1,2,3,64,2^20,2^61,2^62+1} x block sizes around SIZE_MAX/blockCount (length_error exactly when blockCount*max(blockSize,4) exceeds SIZE_MAX, "
+             "nothing allocated, manager destroyed). distinct_nontrivial there = distinct scenarios / parameter sets."),
     "runtime_only": [
         "pool code never touches a live block or memory it does not own: ASan poisoning of all live blocks and of the whole arena outside "
         "outstanding allocations while pool code runs, canary bytes outside allocations, pattern bytes inside live blocks",
@@ -146,5 +164,8 @@ PROP = {
         "world model: `Params` of MemPoolParamsStatic (no run-time fields) and managers whose moved-from state is still usable; self-swap and "
         "self-move-assignment (the harness does not perform them); memory managers that compare equal but are distinct objects with different "
         "lifetimes (the situation of finding F26) are represented by one identity",
+        "MergeFrom(self), the refused MergeFrom (MOMO_CHECKs 387-390 under CheckMode::exception) and the outcome of pvCheckParams / of MemPoolUInt32's "
+        "constructor are statements of the model DRIVER (ops mergex / params / ctor: identity on the state, Params.Legal plus the overflow test against "
+        "SIZE_MAX) and of the harness oracle; they are not operations of the histories the theorems quantify over",
     ],
 }
